@@ -58,12 +58,14 @@ PROBES = {"stale_accelerator": 1, "mismatched_accelerator": 1,
           "bitmap_present": 1, "long_lived_queried": 1,
           "two_octopus_merges": 1,
           "refs_read_during_packed_refs_rewrite": 1,
-          "writer_handle_queried": 1}
+          "writer_handle_queried": 1,
+          "accelerators_written_while_shallow": 1}
 MIN_BUDGET = 120
 
 ACCEL = ["commit-graph", "midx", "bitmap", "packed-refs"]
 STALE = ["commit_loose", "add_pack", "pack_loose", "repack", "gc_now",
-         "delete_ref", "move_ref", "shallow", "graft", "delete_then_gc"]
+         "delete_ref", "move_ref", "shallow", "graft", "delete_then_gc",
+         "unshallow"]
 
 
 FAULT_COUNTERS = {
@@ -104,6 +106,9 @@ def gen_plan(seed, tier):
                            for _ in range(rng.randint(1, 3))],
                 "reads": rng.randint(1, 4)}]),
             "keep_writer": rng.random() < 0.5,
+            # the accelerators are written while the repository is shallow at
+            # some commit (as in a shallow clone); 'unshallow' lifts it later
+            "shallow_first": rng.random() < 0.25,
             "octopus": rng.choice([0, 0, 0, 0.3, 0.6]),
             "warm": rng.choice(["get_raw", "get_raw", "contains", "packs",
                                 "none"])}
@@ -260,6 +265,29 @@ def run_plan(plan):
         commits = list(hist["commits"])
         tips = list(hist["heads"]) + list(hist["tags"].values())
         all_ids = sorted(u.closure(commits + list(hist["tags"].values())))
+        # a shallow clone: what lies below one commit is not there yet
+        shallow_at = None
+        below = set()
+        if plan.get("shallow_first"):
+            withp = [c_ for c_ in commits if u.parents(c_)]
+            if withp:
+                shallow_at = rng.choice(withp)
+                keep = set()
+                todo = list(hist["heads"]) + list(hist["tags"].values()) + \
+                    [commits[0]]
+                while todo:
+                    o = todo.pop()
+                    if o in keep or o not in u.objs:
+                        continue
+                    keep.add(o)
+                    ed_ = u.edges[o]
+                    if o == shallow_at:
+                        ed_ = ed_[:1]  # its tree, not its parents
+                    todo.extend(ed_)
+                below = set(all_ids) - keep
+                if commits[0] in below or not below:
+                    shallow_at = None
+                    below = set()
         # objects in npacks packs + a loose remainder
         chunks = plan["npacks"] + 1
         per = max(1, len(commits) // chunks)
@@ -267,12 +295,13 @@ def run_plan(plan):
         for i in range(plan["npacks"]):
             part = commits[i * per:(i + 1) * per] if i < plan["npacks"] - 1 \
                 else commits[i * per:len(commits) - 1]
-            ids = sorted(u.closure(part) - done)
+            ids = sorted(u.closure(part) - done - below)
             if ids:
                 u.add_to_store(r.object_store, ids)
                 r.object_store.pack_loose_objects()
                 done |= set(ids)
-        u.add_to_store(r.object_store, [i for i in all_ids if i not in done])
+        u.add_to_store(r.object_store, [i for i in all_ids
+                                        if i not in done and i not in below])
         refs = {}
         for i, h in enumerate(hist["heads"][:4]):
             refs[b"refs/heads/h%d" % i] = h
@@ -283,6 +312,9 @@ def run_plan(plan):
         r.refs.set_symbolic_ref(b"HEAD", sorted(
             k for k in refs if k.startswith(b"refs/heads/"))[0])
         model_refs = dict(refs)  # what the refs must read as, throughout
+        if shallow_at is not None:
+            r.update_shallow([shallow_at], [])
+            stats["probe:accelerators_written_while_shallow"] = 1
         # ---- write the accelerators
         acc = plan["accel"]
         if "packed-refs" in acc:
@@ -313,11 +345,12 @@ def run_plan(plan):
             node_c = Repo(rp)
             # how much of the store the long-lived node has touched so far
             warm = plan.get("warm", "get_raw")
+            there = [i for i in all_ids if i not in below]
             if warm == "get_raw":
-                for oid in all_ids[:5]:
+                for oid in there[:5]:
                     node_c.object_store.get_raw(oid)
             elif warm == "contains":
-                for oid in all_ids[:5]:
+                for oid in there[:5]:
                     oid in node_c.object_store  # noqa: B015
             elif warm == "packs":
                 list(node_c.object_store.packs)
@@ -399,6 +432,17 @@ def run_plan(plan):
                     w.update_shallow([c], [])
                 except Exception as e:  # noqa: BLE001
                     viol(f"update_shallow-raised/{type(e).__name__}", repr(e))
+            elif step == "unshallow":
+                if shallow_at is not None:
+                    try:
+                        # the missing history arrives, the boundary goes
+                        u.add_to_store(w.object_store, sorted(below))
+                        below = set()
+                        w.update_shallow([], [shallow_at])
+                        shallow_at = None
+                    except Exception as e:  # noqa: BLE001
+                        viol(f"update_shallow-raised/{type(e).__name__}",
+                             repr(e))
             elif step == "graft":
                 alive = [c for c in commits if c in w.object_store]
                 if not alive:
@@ -658,6 +702,10 @@ def shrink(plan):
     if plan.get("race"):
         p = cp()
         p["race"] = None
+        yield p
+    if plan.get("shallow_first"):
+        p = cp()
+        p["shallow_first"] = False
         yield p
     for k, v in (("octopus", 0), ("warm", "get_raw")):
         if plan.get(k, v) != v:
